@@ -24,15 +24,19 @@ def grid_of(c):
 def dens(c):
     xx = grid_of(c)
     kw = dict(nu=c['nu'], theta0=c['theta0'], gamma=c['gamma'], h=c['h'], beta=c['beta'])
-    if c.get('via') == 'genic':
-        kw.pop('h')
-        phi = PhiManip.phi_1D_genic(xx, **kw)
-    elif c.get('via') == 'snm':
-        phi = PhiManip.phi_1D_snm(xx, nu=c['nu'], theta0=c['theta0'], beta=c['beta'])
-    else:
-        phi = PhiManip.phi_1D(xx, **kw)
+    with warnings.catch_warnings(record=True) as wl:
+        warnings.simplefilter('always')
+        if c.get('via') == 'genic':
+            kw.pop('h')
+            phi = PhiManip.phi_1D_genic(xx, **kw)
+        elif c.get('via') == 'snm':
+            phi = PhiManip.phi_1D_snm(xx, nu=c['nu'], theta0=c['theta0'], beta=c['beta'])
+        else:
+            phi = PhiManip.phi_1D(xx, **kw)
+    nlimit = sum(1 for w in wl if 'maximum number of subdivisions' in str(w.message))
+    warnings.filterwarnings('ignore')
     phi = np.asarray(phi, dtype=float)
-    return {'xx': fl(xx), 'phi': [float(t) if math.isfinite(t) else repr(float(t)) for t in phi]}
+    return {'xx': fl(xx), 'phi': [float(t) if math.isfinite(t) else repr(float(t)) for t in phi], 'quad_limit_warnings': nlimit}
 
 def nu_arg(e, as_func):
     """e: epoch dict (oldest-first history); forward time t in [0, T]"""
